@@ -90,7 +90,7 @@ def run(ck: Check) -> int:
                     if es != eb:
                         ck.report(Failing(f'translate raises {es} for str and {eb} for bytes', {'api': mod.__name__, 'pattern': p, 'flags': fl}, es, eb), None)
                         continue
-                    if ts is None:
+                    if ts is None or tb is None:
                         continue
                     if ([e(x) for x in ts[0]], [e(x) for x in ts[1]]) != (tb[0], tb[1]):
                         ck.report(Failing('translate(bytes) is not the encoded translate(str)', {'api': mod.__name__, 'pattern': p, 'flags': fl}, ts, tb), None)
@@ -150,11 +150,11 @@ def run(ck: Check) -> int:
                     continue
                 if [os.fsencode(x) for x in rs] != rb:
                     ck.report(Failing('glob(bytes root) is not the encoded glob(str root), same order', {'api': 'glob', 'pattern': p, 'flags': fl}, rs, rb), None)
-            for fp, ep in [('*.txt', None), ('*', 'a'), ('*.txt|*.py', 'b'), ('', '.h')]:
+            for fp, ep in [('*.txt', None), ('*', 'a'), ('*.txt|*.py', 'b'), ('', '.h'), (None, None), (None, 'a'), ('!*.txt', None)]:
                 for wfl in (WM.RECURSIVE, WM.RECURSIVE | WM.HIDDEN, WM.RECURSIVE | WM.FILEPATHNAME | WM.DIRPATHNAME):
                     sr.evaluations += 1
                     rs = WM.WcMatch(tmp, fp, ep, wfl).match()
-                    rb = WM.WcMatch(os.fsencode(tmp), e(fp), e(ep) if ep is not None else None, wfl).match()
+                    rb = WM.WcMatch(os.fsencode(tmp), e(fp) if fp is not None else None, e(ep) if ep is not None else None, wfl).match()
                     if [os.fsencode(x) for x in rs] != rb:
                         ck.report(Failing('WcMatch(bytes root) is not the encoded WcMatch(str root)', {'api': 'WcMatch', 'pattern': fp, 'exclude': ep, 'flags': wfl}, rs, rb), None)
         finally:
